@@ -7,6 +7,7 @@ use std::panic;
 
 mod text;
 mod ide_cmd;
+mod sweep;
 mod syntax_cmd;
 pub mod util;
 
@@ -18,6 +19,7 @@ fn dispatch(args: &[&str]) -> Option<String> {
     match args[0] {
         "lcall" | "posall" | "endcols" | "edit" | "editfull" | "semtok" => text::run(args),
         "lex" | "parse" | "parsestat" | "shape" | "lossless" => syntax_cmd::run(args),
+        "sweep" => sweep::run(args),
         _ => ide_cmd::run(args),
     }
 }
